@@ -787,11 +787,11 @@ spif_dlinked_list_insert_at(spif_dlinked_list_t self, spif_obj_t obj, spif_listi
     }
     REQUIRE_RVAL((idx + 1) > 0, FALSE);
 
-    if (idx == 0 || SPIF_DLINKED_LIST_ITEM_ISNULL(self->head)) {
+    if (idx == 0) {
         return spif_dlinked_list_prepend(self, obj);
-    } else if (idx == (self->len - 1) || SPIF_DLINKED_LIST_ITEM_ISNULL(self->tail)) {
+    } else if (idx == (self->len - 1) && !SPIF_DLINKED_LIST_ITEM_ISNULL(self->tail)) {
         return spif_dlinked_list_append(self, obj);
-    } else if (idx > self->len) {
+    } else if (idx > self->len || SPIF_DLINKED_LIST_ITEM_ISNULL(self->head)) {
         for (i = self->len; i < idx; i++) {
             spif_dlinked_list_append(self, (spif_obj_t) NULL);
         }
